@@ -96,6 +96,8 @@ def run(rep, tier):
                 ft, tt = _bool_switch(f, c)
                 if ft is not None and p.block not in f.reachable_from([ft], avoid=[en.block for en in entries]):
                     ok = True
+                elif p.block not in valueflow.reachable_if_result(f, c, 0, avoid=[en.block for en in entries]):
+                    ok = True       # the test is kept in a named flag (`let owned_by_other = !dup && !contains; if owned_by_other`): decided path-sensitively
             rep.ob("R04.1", "reject-edge|%s" % name, ok,
                    "the edge `unique && posting does not contain this doc id` must not reach the append", p.where())
 
